@@ -33,6 +33,12 @@ def rstrip (s : List Char) : List Char := (s.reverse.dropWhile isWs).reverse
 /-- `str.strip()` -/
 def strip (s : List Char) : List Char := rstrip (lstrip s)
 
+/-- what `int()` skips around the digits: ASCII characters are judged by C `isspace` (so 0x1c–0x1f, which
+`str.strip()` removes, are NOT skipped), the Latin-1 spaces 0x85 / 0xa0 by `Py_UNICODE_ISSPACE` -/
+def isIntWs (c : Char) : Bool :=
+  let n := c.toNat
+  (9 ≤ n && n ≤ 13) || n == 32 || n == 0x85 || n == 0xa0
+
 /-- `str.lower()` on ASCII -/
 def lowerChar (c : Char) : Char :=
   if 'A' ≤ c ∧ c ≤ 'Z' then Char.ofNat (c.toNat + 32) else c
@@ -76,7 +82,7 @@ where
 /-- Python `int(s)` for `str` arguments (base 10): surrounding whitespace, one optional sign, decimal digits
 with single underscores. `none` = `ValueError`. -/
 def pyInt (s : List Char) : Option Int :=
-  match strip s with
+  match ((s.dropWhile isIntWs).reverse.dropWhile isIntWs).reverse with
   | [] => none
   | '+' :: r => (pyDigits r 0 false).map Int.ofNat
   | '-' :: r => (pyDigits r 0 false).map (fun n => - Int.ofNat n)
@@ -317,6 +323,20 @@ def dirCompatible (enc dec : Pmce) : Prop :=
 
 instance (enc dec : Pmce) : Decidable (dirCompatible enc dec) := by unfold dirCompatible; exact inferInstance
 
+/-- Spec (RFC 7692 §7.1): what a response may contain given the offer the client sent.
+`server_*` only when requested and never above the request; requests are honoured; `client_max_window_bits`
+only when the offer carried it, with a permissible value. (`client_no_context_takeover` may always be sent.) -/
+def permittedBy (o : Offer) (r : Response) : Prop :=
+  (r.sNct = true ↔ o.reqNct = true)
+  ∧ (r.sMwb ≠ 0 → r.sMwb ≤ o.reqMwb)
+  ∧ (o.reqMwb ≠ 0 → r.sMwb ≠ 0)
+  ∧ (r.cMwb ≠ 0 → o.acceptMwb = true ∧ winOk r.cMwb = true)
+
+instance (o : Offer) (r : Response) : Decidable (permittedBy o r) := by unfold permittedBy; exact inferInstance
+
+/-- the four negotiated parameters an end holds -/
+def Pmce.params (p : Pmce) : Bool × Bool × Nat × Nat := (p.sNct, p.cNct, p.sMwb, p.cMwb)
+
 /-! ## complete enumeration of the lattice -/
 
 def bools : List Bool := [false, true]
@@ -377,6 +397,27 @@ def negotiate (o : Offer) (x : AcceptArgs) (y : RAcceptArgs) : Option Negotiated
   let ra := y.on r
   if !ra.guard then none
   pure ⟨offerStr, responseStr, Pmce.fromOfferAccept true a, Pmce.fromResponseAccept false ra⟩
+
+/-! ## re-parsing what was rendered (used by the round-trip theorems and the driver) -/
+
+/-- what the server's parser can know of an offer: `accept_no_context_takeover` is not transmitted when
+false and defaults to `True` in `PerMessageDeflateOffer.parse` -/
+def Offer.normalize (o : Offer) : Offer := { o with acceptNct := true }
+
+/-- the header a client renders for an offer, as `_parseExtensionsHeader` + `Offer.parse` read it -/
+def Offer.reparse (o : Offer) : Option Offer :=
+  (findDeflate (parseExtensionsHeader o.render)).bind Offer.parse
+
+/-- the response as the client will parse it -/
+def OfferAccept.response (a : OfferAccept) : Response :=
+  ⟨a.reqMwb, a.reqNct, a.offer.reqMwb, a.offer.reqNct⟩
+
+def OfferAccept.reparse (a : OfferAccept) : Option Response :=
+  (findDeflate (parseExtensionsHeader a.render)).bind Response.parse
+
+/-- slices of the lattice (the kernel walks them in parallel) -/
+def Offer.slice (a b : Bool) : List Offer :=
+  bools.flatMap fun c => winVals.map fun w => ⟨a, b, c, w⟩
 
 /-! ## permessage-bzip2 (compress_bzip2.py): compression-level lattice -/
 
